@@ -554,6 +554,60 @@ def gen_state(rng, tier, i):
                 exts=rng.sample(["ovf", "omf", "ohf"], 2), wpath=rng.choice(["str", "Path"]))
 
 
+# ---- large fields around the writer's chunk size (oracle only: far too large for a Coq literal)
+def writer_chunksize():
+    """the chunk size of the binary writer, read from the source at run time (fallback 100000)"""
+    try:
+        src = open(os.path.join(REPO, "discretisedfield", "io", "ovf.py")).read()
+        m = re.search(r"^\s*chunksize\s*=\s*([0-9][0-9_]*)\s*$", src, re.M)
+        if m:
+            return int(m.group(1).replace("_", "")), "source"
+    except OSError:
+        pass
+    return 100000, "fallback"
+
+
+def factor3(rng, cells):
+    def big_div(x, cap):
+        for q in range(min(cap, x), 0, -1):
+            if x % q == 0:
+                return q
+        return 1
+    a_ = big_div(cells, rng.choice([100, 128, 64, 50]))
+    b_ = big_div(cells // a_, rng.choice([100, 128, 10, 20]))
+    n = [a_, b_, cells // a_ // b_]
+    rng.shuffle(n)
+    return n
+
+
+def gen_big(rng, tier):
+    C, src = writer_chunksize()
+    grid = []
+    for vd in (1, 2, 3, 4, 6, 7, 9):
+        for k in (1, 2, 3):
+            for delta in (-vd, -1, 0, 1, vd):
+                target = k * C + delta
+                total = (target // vd) * vd if delta <= 0 else -((-target) // vd) * vd   # multiple of vd at/below resp. at/above
+                if total >= vd:
+                    grid.append((vd, k, delta, total))
+    # values counts at or just below a multiple of the chunk size, component counts that do not divide it
+    must = [g_ for g_ in grid if g_[2] == 0 and g_[1] == 3 and C % g_[0] != 0]
+    rest = [g_ for g_ in grid if g_ not in must]
+    rng.shuffle(rest)
+    pick = must + rest[: (4 if tier == "quick" else 30 - len(must))]
+    cases = []
+    for i, (vd, k, delta, total) in enumerate(pick):
+        extend = vd == 3 and i % 2 == 0
+        cases.append(dict(kind="big", vd=vd, nv=1 if extend else vd, extend=extend, k=k, delta=delta, total=total,
+                          n=factor3(rng, total // vd), rep=("bin8", "bin4")[i % 2], chunk=C, chunk_src=src))
+    if cases:
+        cases[-1]["rep"] = "txt"
+    # the extended scalar at three chunks is always there
+    cases.append(dict(kind="big", vd=3, nv=1, extend=True, k=3, delta=0, total=(3 * C // 3) * 3,
+                      n=factor3(rng, 3 * C // 3), rep="bin8", chunk=C, chunk_src=src))
+    return cases
+
+
 def gen_foreign(rng, tier, version=None, rep=None, maxn=None):
     version = version or rng.choice([1, 2])
     rep = rep or rng.choice(REPS)
@@ -627,6 +681,7 @@ def generate(rng, tier):
     # state left by earlier calls, repeated calls, neighbours in the directory
     for i in range(30 if quick else 180):
         cases.append(gen_state(rng, tier, i))
+    cases += gen_big(rng, tier)
     # axis-order probes: index-coded values on meshes with three different n
     for i in range(12 if quick else 60):
         f = gen_field(rng, tier, vcls="index", exact=True)
@@ -1461,6 +1516,56 @@ def run_state(case):
     return rec("state", case, obs, coq, oracle, key, 50 + len(case["field"]["vals"]), tags)
 
 
+def run_big(case):
+    """large field: independent struct decoder (announced count == values present, every value, check value)
+    and the library's own reader; values (arange - 7) / 2 are exact in float32"""
+    n, nv, rep_, extend = case["n"], case["nv"], case["rep"], case["extend"]
+    cells = n[0] * n[1] * n[2]
+    arr = ((np.arange(cells * nv, dtype=np.float64) - 7.0) * 0.5).reshape(*n, nv)
+    mesh = df.Mesh(p1=(0, 0, 0), p2=tuple(float(k) for k in n), n=n)
+    fld = df.Field(mesh, nvdim=nv, value=arr, vdims=None if nv <= 3 else [f"c{i}" for i in range(nv)])
+    path = newpath()
+    oracle = []
+    obs = dict(n=n, vd=case["vd"], total=case["total"], chunk=case["chunk"], chunk_src=case["chunk_src"])
+    st, out = attempt(lambda: fld.to_file(path, representation=rep_, extend_scalar=extend))
+    if st != "ok":
+        oracle.append("write-rejected")
+        obs["rejected"] = out
+    else:
+        want = arr.transpose(2, 1, 0, 3).reshape(cells, nv)
+        if extend:
+            want = np.concatenate([want, np.zeros((cells, 2))], axis=1)
+        want = want.reshape(-1)
+        try:
+            a = ovf_parse(open(path, "rb").read())
+        except OvfError:
+            a = None
+            oracle.append("file-not-ovf")
+        if a is not None:
+            obs.update(announced=a["count"], present=len(a["payload"]), tail_ok=a["tail_ok"])
+            if a["nodes"] != n or a["valuedim"] != case["vd"] or a["count"] != len(want):
+                oracle.append("file-mesh")
+            if rep_ != "txt" and a["check"] != CHECK[4 if rep_ == "bin4" else 8]:
+                oracle.append("file-check-value")
+            if len(a["payload"]) != a["count"] or not a["tail_ok"]:
+                oracle.append("file-data-short")
+            elif not np.array_equal(np.array(a["payload"], dtype=np.float64), want):
+                oracle.append("file-data")
+        st2, back = attempt(lambda: df.Field.from_file(path))
+        if st2 != "ok":
+            oracle.append("roundtrip-rejected")
+            obs["read_rejected"] = back
+        else:
+            exp = arr if not extend else np.concatenate([arr, np.zeros((*n, 2))], axis=3)
+            if [int(k) for k in back.mesh.n] != n or back.nvdim != case["vd"]:
+                oracle.append("cell-counts")
+            elif not np.array_equal(back.array, exp):
+                oracle.append("values-" + rep_)
+    cleanup(path)
+    key = f"big|{rep_}|vd{case['vd']}|k{case['k']}|d{case['delta']}|{extend}|{st}"
+    return rec("big", case, obs, None, oracle, key, case["total"])
+
+
 def run_case(case):
     with warnings.catch_warnings():
         warnings.simplefilter("ignore")
@@ -1476,6 +1581,8 @@ def run_case(case):
                 return run_sample(case)
             if k == "state":
                 return run_state(case)
+            if k == "big":
+                return run_big(case)
     raise ValueError(case["kind"])
 
 
